@@ -66,4 +66,22 @@ TEXT = {
         'note': COMMON_NOTE,
         'technique': 'call monitor inside the G->R replay of TLC-generated behaviours',
     },
+    'C07': {
+        'text': 'Bounded exhaustive model checking of the light-client state machine (spec/LightClient.tla): every block with '
+                'every remember subset from every reachable (n, live, held); the real Stump.Update -> Proof.Update pipeline '
+                'must leave the client holding exactly held\' with true positions and the canonical proof, which must verify '
+                'and equal a full prover\'s proof. TLC additionally proves on the specification that block data is '
+                'sufficient (theorem Sufficient).',
+        'design_ref': 'DESIGN.md section 5 (C07)',
+        'note': COMMON_NOTE,
+        'technique': 'TLA+ spec + TLC BFS over (n, live, held), Stump.Update/Proof.Update pipeline replayed (G->R); spec-level sufficiency theorem',
+    },
+    'C08': {
+        'text': 'Bounded exhaustive model checking with the undo stack in the specification state: every block is undone with '
+                'Proof.Undo to depth 1..3 and every redo continuation explored; after each undo the held pairs and the proof '
+                'must be the canonical ones of held \\ added in the pre-block forest and verify against the previous stump.',
+        'design_ref': 'DESIGN.md section 5 (C08)',
+        'note': COMMON_NOTE + ' Known finding C08-F1 (leaves lost when the undone block overwrote an empty root) is reported as KNOWN-FINDING.',
+        'technique': 'TLA+ spec with undo stack + TLC BFS, Proof.Undo behaviours replayed (G->R)',
+    },
 }
